@@ -875,5 +875,47 @@ def o13_memo(chk: Check) -> None:
                          "MEMO-KEY(anchor modules of this property): whether a failure / error is reported is decided per scenario and event: a cache keyed by less than what the cached value is computed from replays another scenario's verdict", floor=0)
 
 
+def o14_error_identity(chk: Check) -> None:
+    chk.rule("C05.O14", "DISTINCT-KEY(errors collected in a set): the CLI keeps NonFatalError events in a `set`, so `__eq__` / `__hash__` decide which errors the report shows; the label (operation, or the path for a path-level error) takes part in both UNCONDITIONALLY (followed through one property / helper of the class) - an identity that drops it for some errors merges the errors of different paths into one entry and the other paths vanish from the report", floor=3)
+    P = chk.project
+    cls = P.module("engine/events.py").classes.get("NonFatalError")
+    if cls is None:
+        chk.undecided("C05.O14", "engine/events.py:NonFatalError", "class", "class not found")
+        return
+    out = P.module("cli/commands/run/handlers/output.py")
+    in_set = any(isinstance(n, ast.AnnAssign) and "set[" in unparse(n.annotation) and "NonFatalError" in unparse(n.annotation) for n in ast.walk(out.tree))
+    chk.decide(True if in_set else None, "C05.O14", "cli/commands/run/handlers/output.py", "errors are collected in a set of NonFatalError", "collection not recognised", "cli/commands/run/handlers/output.py")
+    for mname in ("__eq__", "__hash__"):
+        m = cls.methods.get(mname)
+        construct = f"NonFatalError.{mname} uses the label unconditionally"
+        if m is None:
+            chk.undecided("C05.O14", "engine/events.py:NonFatalError", construct, "method not defined (identity semantics: every event distinct)")
+            continue
+        roots: list[ast.AST] = [m.node]
+        for x in ast.walk(m.node):
+            if isinstance(x, ast.Attribute) and isinstance(x.value, ast.Name) and x.value.id in ("self", "other") and x.attr in cls.methods and x.attr not in ("__eq__", "__hash__"):
+                roots.append(cls.methods[x.attr].node)
+        uncond = cond = 0
+        for root in roots:
+            for x in ast.walk(root):
+                if isinstance(x, ast.Attribute) and x.attr == "label" and isinstance(x.value, ast.Name) and x.value.id == "self":
+                    p_ = parent(x)
+                    conditional = False
+                    while p_ is not None and p_ is not root:
+                        if isinstance(p_, (ast.IfExp, ast.If)) or (isinstance(p_, ast.BoolOp) and isinstance(p_.op, ast.Or)):
+                            conditional = True
+                        p_ = parent(p_)
+                    if conditional:
+                        cond += 1
+                    else:
+                        uncond += 1
+        if uncond:
+            chk.ok("C05.O14", m, construct, f"{uncond} unconditional use(s)", m.loc())
+        elif cond:
+            chk.violation("C05.O14", m, construct, "the label takes part in the identity only under a condition: errors for which the condition fails compare equal whenever their exception types agree, and all but one are dropped from the set the report is written from", m.loc())
+        else:
+            chk.undecided("C05.O14", m, construct, "no use of self.label found", m.loc())
+
+
 def rules(tier: str) -> list:  # type: ignore[type-arg]
-    return [o1_thread_targets, o2_run_test_ladder, o3_failure_recording, o3b_run_checks, o4_status_folding, o5_exit_code, o6_marks, o7_plumbing, o8_statistic_accumulates, o9_failure_counter_sites, o10_drain, o11_failure_with_its_request, o12_limit_is_not_an_interrupt, rfwd_forwarding, o13_memo]
+    return [o1_thread_targets, o2_run_test_ladder, o3_failure_recording, o3b_run_checks, o4_status_folding, o5_exit_code, o6_marks, o7_plumbing, o8_statistic_accumulates, o9_failure_counter_sites, o10_drain, o11_failure_with_its_request, o12_limit_is_not_an_interrupt, rfwd_forwarding, o13_memo, o14_error_identity]
